@@ -86,10 +86,49 @@ UNITS += [
         /*@remove_keeps_stores_content_addressed*/ final(self).content_addressed(),
 """),
 ]
+
+UNITS += [
+    Unit(name="cache_remove_not_in_list", file=CA, anchor="pub fn remove_not_in_list(&self, tpe: FileType, list: &Vec<(Id, u32)>) -> RusticResult<()>", within="impl Cache {", ret_name="r",
+         wrap_open="impl Cache {", wrap_close="}",
+         functions=["backend::cache::Cache::remove_not_in_list"],
+         rewrites=[MUT("remove_not_in_list"), R_LOG, R_LETCHAIN,
+                   Rw("for (id, size) in list {", "for e in it: list.iter() { let (id, size) = (&e.0, &e.1);", why="Verus for-loop syntax; by-reference destructuring"),
+                   Rw("for id in list_cache.keys() {", "let vkeys = list_cache.vkeys(); for id in it2: vkeys.iter() {", why="HashMap::keys -> key vector stub; Verus for-loop syntax"),
+         ],
+         contract="""
+    ensures
+        /*@cleaning_only_removes*/ forall|k: Key| #[trigger] final(self)@.dom().contains(k) ==> old(self)@.dom().contains(k) && final(self)@[k] == old(self)@[k],
+        /*@cleaning_leaves_other_types*/ forall|k: Key| k.0 != tpe && #[trigger] old(self)@.dom().contains(k) ==> final(self)@.dom().contains(k),
+        // what is left in the cache for this type is listed by the repository with exactly the cached size
+        /*@after_cleaning_every_cached_file_is_listed_with_its_size*/ r is Ok ==> forall|id: Id| #[trigger] final(self)@.dom().contains((tpe, id)) ==> list@.contains((id, final(self)@[(tpe, id)].len() as u32)),
+        /*@cleaning_succeeds_on_a_healthy_cache_dir*/ old(self).healthy@ ==> r is Ok, final(self).healthy@ == old(self).healthy@,
+""",
+         loops={1: """
+            invariant
+                self.healthy@ == old(self).healthy@,
+                forall|k: Key| #[trigger] self@.dom().contains(k) ==> old(self)@.dom().contains(k) && self@[k] == old(self)@[k],
+                forall|k: Key| k.0 != tpe && #[trigger] old(self)@.dom().contains(k) ==> self@.dom().contains(k),
+                // files still pending in list_cache are cached with that size
+                forall|id: Id| #[trigger] list_cache@.dom().contains(id) ==> self@.dom().contains((tpe, id)) && list_cache@[id] == self@[(tpe, id)].len() as u32,
+                // every cached file of this type is either pending or was found in the listing with its size
+                forall|id: Id| #[trigger] self@.dom().contains((tpe, id)) ==> list_cache@.dom().contains(id) || list@.contains((id, self@[(tpe, id)].len() as u32)),
+""", 2: """
+            invariant
+                self.healthy@ == old(self).healthy@,
+                forall|k: Key| #[trigger] self@.dom().contains(k) ==> old(self)@.dom().contains(k) && self@[k] == old(self)@[k],
+                forall|k: Key| k.0 != tpe && #[trigger] old(self)@.dom().contains(k) ==> self@.dom().contains(k),
+                forall|id: Id| #![trigger list_cache@.dom().contains(id)] list_cache@.dom().contains(id) <==> vkeys@.contains(id),
+                // a cached file of this type is a key not yet visited, or is listed with its size
+                forall|id: Id| #[trigger] self@.dom().contains((tpe, id)) ==> (exists|j: int| it2.index@ <= j < vkeys@.len() && vkeys@[j] == id) || list@.contains((id, self@[(tpe, id)].len() as u32)),
+"""},
+         hints=[("loop_start", "1", "            proof { assert(list@[it.index@] == *e); assert(list@.contains(*e)); }"),
+                ("loop_start", "2", "            proof { assert(vkeys@[it2.index@] == *id); }")],
+         ),
+]
 KANI = []
 META = {"not_covered": [
     "the statement's quantifier: histories through a cached and an uncached handle, stale/truncated/foreign files planted in the cache directory -- only the single-call building blocks are decided here",
-    "Cache itself (file-system code): tmp+rename writes, remove_not_in_list, read_full / read_partial of cached files, list_with_size -- stubs with map semantics",
+    "Cache itself (file-system code): tmp+rename writes, read_full / read_partial of cached files, list_with_size (directory walk), remove -- stubs with map semantics; remove_not_in_list IS a unit",
     "a cached file with foreign bytes of the right size under a valid id (outside the content-addressing hypothesis; nothing re-hashes cached files)",
     "reads of a file that only the cache still has (between two listings): the cached handle answers, an uncached one fails",
     "pass-through methods location / needs_warm_up / warm_up / warmup_path / create (one delegating call each)",
